@@ -1,10 +1,11 @@
 (* The allocator's integer <-> bytes helpers (Model/Alloc.v: fits_in_small_atom, len_for_value,
    small_bytes, u64_bytes, i64_bytes, strip_leading_zeros . to_signed_bytes_be) agree with the
    canonical encoding bytes_of_int of Model/IntEnc.v and with the reference's r_small_number. *)
-From Clvm Require Import Model.Alloc Model.AllocRef Proofs.BytesLemmas Proofs.IntEncProofs.
+From Clvm Require Import Model.Alloc Model.AllocRef Proofs.BytesLemmas Proofs.IntEncBasics Proofs.IntEncProofs.
 From Coq Require Import Lia ZifyBool ZifyN ZifyNat.
 Ltac Zify.zify_post_hook ::= Z.div_mod_to_equations.
 Open Scope N_scope.
+Arguments pow256 : simpl never.
 
 
 Lemma Zp256_1 : Zp256 1 = 256%Z. Proof. reflexivity. Qed.
@@ -100,13 +101,13 @@ Qed.
 Lemma int_of_bytes_lt128 x0 rest :
   x0 < 128 -> int_of_bytes (x0 :: rest) = Z.of_N (be_value (x0 :: rest)).
 Proof.
-  intros H. unfold int_of_bytes. destruct (N.leb_spec 128 x0); [lia|reflexivity].
+  intros H. rewrite int_of_bytes_eq. destruct (N.leb_spec 128 x0); [lia|reflexivity].
 Qed.
 
 Lemma int_of_bytes_nonneg_first x0 rest :
   wf_bytes (x0 :: rest) = true -> (0 <= int_of_bytes (x0 :: rest))%Z -> x0 < 128.
 Proof.
-  intros W H. unfold int_of_bytes in H. pose proof (be_value_lt _ W) as Hv.
+  intros W H. rewrite int_of_bytes_eq, <- pow256_pow in H. pose proof (be_value_lt _ W) as Hv.
   destruct (N.leb_spec 128 x0); lia.
 Qed.
 
@@ -116,7 +117,7 @@ Lemma be_value_small_bound x0 rest :
 Proof.
   intros W L. apply wf_cons_inv in W. destruct W as [Hx Wr].
   pose proof (be_value_lt rest Wr) as Hv. rewrite be_value_cons.
-  fold (pow256 (length rest)).
+  rewrite <- pow256_pow.
   assert (length rest = 3 \/ length rest <= 2)%nat as [E|E] by lia.
   - rewrite E in *. rewrite pow256_3 in *. split; [intros; lia|intros H; specialize (H eq_refl); lia].
   - pose proof (pow256_mono (length rest) 2 E) as M. change (pow256 2) with 65536 in M.
